@@ -181,7 +181,7 @@ type vParStep struct {
 	Sched []int  `json:"sched"`
 }
 
-func (w *vWorld) runParStep(nextId *int64, ops []vReq, sched []int, extraGates []string) {
+func (w *vWorld) runParStep(nextId *int64, ops []vReq, sched []int, extraGates []string, hold ...int) {
 	extra := map[string]bool{}
 	for _, g := range extraGates {
 		extra[g] = true
@@ -277,7 +277,31 @@ func (w *vWorld) runParStep(nextId *int64, ops []vReq, sched []int, extraGates [
 			}
 		}
 	}
-	errs := s.runPar(actors, sched)
+	errs := ""
+	if len(hold) > 0 {
+		// "hold" actors (indices into ops that became request actors, in order) run to their FIRST yield point and
+		// stay parked there while everybody else runs to completion; then they go on.  This is how a request is kept
+		// between its key-manager lookup and the shard mutex while timers fire and other requests come and go.
+		held := map[*vActor]bool{}
+		for _, h := range hold {
+			if h >= 0 && h < len(actors) {
+				held[actors[h]] = true
+				s.release(actors[h])
+			}
+		}
+		var rest []*vActor
+		for _, a := range actors {
+			if !held[a] {
+				rest = append(rest, a)
+			}
+		}
+		errs = s.runPar(rest, sched)
+		if errs == "" {
+			errs = s.runPar(actors, nil)
+		}
+	} else {
+		errs = s.runPar(actors, sched)
+	}
 	VerifPointFunc = nil
 	w.gate = nil
 	if errs != "" {
@@ -359,6 +383,7 @@ type vStepC struct {
 	Script []string        `json:"script"`
 	Gates  []string        `json:"gates"`
 	Free   bool            `json:"free"`
+	Hold   []int           `json:"hold"`
 }
 
 // runScript executes a TLC-generated schedule of LockEngineFine: every script element names the actor whose
@@ -506,7 +531,7 @@ func TestVerifC(t *testing.T) {
 				if st.Free {
 					w.runFreeStep(&nextId, st.Ops)
 				} else {
-					w.runParStep(&nextId, st.Ops, st.Sched, st.Gates)
+					w.runParStep(&nextId, st.Ops, st.Sched, st.Gates, st.Hold...)
 				}
 				w.tr.Emit(w.Snapshot())
 			} else if st.Op == "fine" {
